@@ -478,6 +478,7 @@ class PreemptionBounded:
 
     def __init__(self, preempt_at):
         self.preempt_at = dict(preempt_at)     # step -> k (1..number of alternatives)
+        self.demoted = []      # threads that were preempted: they resume only after the others have had their turn
         self.cur = None
         self.step = 0
         self.branch = []       # (step, number of alternatives)
@@ -492,12 +493,15 @@ class PreemptionBounded:
             default = self.cur
         else:
             others = [n for n in names if n not in soft and n not in timers]
+            others.sort(key=lambda n: (n in self.demoted, n))
             rest = [n for n in names if n not in timers]
             default = others[0] if others else (rest[0] if rest else names[0])
         alts = [n for n in names if n != default]
         if alts:
             self.branch.append((s, len(alts)))
         k = self.preempt_at.get(s)
+        if k and alts and default not in self.demoted:
+            self.demoted.append(default)
         self.cur = alts[(k - 1) % len(alts)] if (k and alts) else default
         self.names.append(self.cur)
         return self.cur
